@@ -203,8 +203,12 @@ func (r *Run) classifyMapLoop(l *mapLoop) (class, arg string) {
 					}
 					continue
 				}
-				if isPureCall(&x.Call) {
+				if isPureCall(&x.Call) || r.pureCallee(x) {
 					continue
+				}
+				if r.entryLocalCall(x, l) {
+					effects++
+					continue // effects confined to the objects of this entry (class K by extension)
 				}
 				effects++
 				kind("call:" + calleeDesc(&x.Call))
@@ -580,10 +584,10 @@ func ruleMapRanges(sc scope, min int) ruleFn {
 				if class, arg := r.classifyMapLoop(l); class != "" {
 					r.OK(rule, name, construct, site, "class "+class+": "+arg)
 					continue
-				} else if reason, ok := useTable(r, detTable, name+"/"+construct); ok && kindsAllowed(l.kinds, detKinds[name+"/"+construct]) {
+				} else if reason, ok := useTable(r, detTable, name+"/"+construct); ok && kindsAllowed(l.kinds, normKinds(detKinds)[pkgKey(name+"/"+construct)]) {
 					r.Tabled(rule, name, construct, site, "det", reason)
-				} else if _, tabled := detTable[name+"/"+construct]; tabled && !kindsAllowed(l.kinds, detKinds[name+"/"+construct]) {
-					r.Bad(rule, name, construct, site, "this loop is tabled as order-insensitive for the effects "+strings.Join(detKinds[name+"/"+construct], ", ")+", but it now also has: "+strings.Join(extraKinds(l.kinds, detKinds[name+"/"+construct]), ", ")+" — "+arg)
+				} else if _, tabled := normTable(&detTable)[pkgKey(name+"/"+construct)]; tabled && !kindsAllowed(l.kinds, normKinds(detKinds)[pkgKey(name+"/"+construct)]) {
+					r.Bad(rule, name, construct, site, "this loop is tabled as order-insensitive for the effects "+strings.Join(normKinds(detKinds)[pkgKey(name+"/"+construct)], ", ")+", but it now also has: "+strings.Join(extraKinds(l.kinds, normKinds(detKinds)[pkgKey(name+"/"+construct)]), ", ")+" — "+arg)
 				} else {
 					r.Bad(rule, name, construct, site, "iteration over a map whose effects depend on the iteration order: "+arg)
 				}
@@ -649,12 +653,12 @@ func ruleReducers(r *Run) {
 type reducerClass struct{ kind, why string }
 
 var reducerTable = map[string]reducerClass{
-	"pebbles.(*Gateway).queryHandler":     {"POS-queryHandler", ""},
-	"queryer.(*MultiOpQueryer).Query":     {"POS-chunks", ""},
+	"pebbles.(*Gateway).queryHandler":                                           {"POS-queryHandler", ""},
+	"queryer.(*MultiOpQueryer).Query":                                           {"POS-chunks", ""},
 	"introspection.(*ParallelRemoteSchemaIntrospector).IntrospectRemoteSchemas": {"AS-index", ""},
-	"executor.(*DepthExecutor).Execute":         {"multiset", "results are merged into the response by insertion point (disjoint response keys per step; dem.merge is keyed) and next requests only decide batch order"},
-	"executor.(*DepthExecutor).parseRespones":   {"multiset", "one execution result per request, merged by insertion point; order of the list is not observable"},
-	"executor.findNextExecutionRequestsAsync":   {"multiset", "next execution requests: only their position inside the next batch depends on order"},
+	"executor.(*DepthExecutor).Execute":                                         {"multiset", "results are merged into the response by insertion point (disjoint response keys per step; dem.merge is keyed) and next requests only decide batch order"},
+	"executor.(*DepthExecutor).parseRespones":                                   {"multiset", "one execution result per request, merged by insertion point; order of the list is not observable"},
+	"executor.findNextExecutionRequestsAsync":                                   {"multiset", "next execution requests: only their position inside the next batch depends on order"},
 }
 
 // checkChunkReducer: MultiOpQueryer.Query — the chunk index stored in the mapped value is the
@@ -669,6 +673,10 @@ func (r *Run) checkChunkReducer(fn *ssa.Function, call *ssa.Call, mapF, redF *ss
 		return
 	}
 	idx := mapF.Params[0]
+	// the closure may just delegate to a method/function that receives the chunk index
+	if body, bidx := chunkBody(r, mapF, idx); body != nil {
+		mapF, idx = body, bidx
+	}
 	// Index field store
 	okIndex := false
 	for _, ins := range allInstrs(mapF) {
@@ -948,13 +956,13 @@ func stepListLoops(fn *ssa.Function) []*mapLoop {
 }
 
 var stepLoopTable = map[string]tabEntry{
-	"executor.NewDepthExecutorManager": {1, "walkPlanStep appends each step to the list of its depth: the order inside a depth only decides the order of requests inside a batch"},
-	"executor.walkPlanStep":            {1, "recursion over Then: appends to per-depth lists, see NewDepthExecutorManager"},
-	"pebbles.(*Gateway).getQueryers":   {1, "first-writer-wins per URL, and the value is a function of the URL alone (factory(ctx, url))"},
-	"pebbles.(*Gateway).parseIntrospectionQuery": {1, "early return at the internal pseudo-service step: routeSelectionSet creates at most one step per location, so at most one step matches"},
-	"pebbles.(*Gateway).newSubscriptionEntry":    {1, "collects the children of the (single) root step; more than one root step is rejected right after"},
-	"pebbles.(*Gateway).newSubscriptionEntry$1":  {1, "one new root step per insertion point of each child: appended list is executed as a set (grouped by URL, merged by insertion point)"},
-	"executor.(*DepthExecutorManager).Execute":   {1, "builds one execution request per root step; the list is grouped by URL and merged by response key"},
+	"executor.NewDepthExecutorManager":            {1, "walkPlanStep appends each step to the list of its depth: the order inside a depth only decides the order of requests inside a batch"},
+	"executor.walkPlanStep":                       {1, "recursion over Then: appends to per-depth lists, see NewDepthExecutorManager"},
+	"pebbles.(*Gateway).getQueryers":              {1, "first-writer-wins per URL, and the value is a function of the URL alone (factory(ctx, url))"},
+	"pebbles.(*Gateway).parseIntrospectionQuery":  {1, "early return at the internal pseudo-service step: routeSelectionSet creates at most one step per location, so at most one step matches"},
+	"pebbles.(*Gateway).newSubscriptionEntry":     {1, "collects the children of the (single) root step; more than one root step is rejected right after"},
+	"pebbles.(*Gateway).newSubscriptionEntry$1":   {1, "one new root step per insertion point of each child: appended list is executed as a set (grouped by URL, merged by insertion point)"},
+	"executor.(*DepthExecutorManager).Execute":    {1, "builds one execution request per root step; the list is grouped by URL and merged by response key"},
 	"executor.findNextExecutionRequestsWithCache": {1, "one request per dependent step and insertion point; consumed as a set"},
 	"planner.(*QueryPlan).SetComputedValues":      {1, "rewrites element i with the computed form of element i"},
 	"planner.(*QueryPlanStep).SetComputedValues":  {1, "rewrites element i with the computed form of element i"},
@@ -975,10 +983,10 @@ func ruleStepListLoops(r *Run) {
 			construct := "range over []*QueryPlanStep"
 			if class, arg := r.classifyMapLoop(l); class != "" {
 				r.OK(rule, name, construct, site, "class "+class+": "+arg)
-			} else if reason, ok := useTable(r, stepLoopTable, name); ok && kindsAllowed(l.kinds, stepKinds[name]) {
+			} else if reason, ok := useTable(r, stepLoopTable, name); ok && kindsAllowed(l.kinds, normKinds(stepKinds)[pkgKey(name)]) {
 				r.Tabled(rule, name, construct, site, "stepLoop", reason)
-			} else if _, tabled := stepLoopTable[name]; tabled && !kindsAllowed(l.kinds, stepKinds[name]) {
-				r.Bad(rule, name, construct, site, "this loop over sibling plan steps is tabled as order-insensitive for the effects "+strings.Join(stepKinds[name], ", ")+", but it now also has: "+strings.Join(extraKinds(l.kinds, stepKinds[name]), ", ")+" — "+arg)
+			} else if _, tabled := normTable(&stepLoopTable)[pkgKey(name)]; tabled && !kindsAllowed(l.kinds, normKinds(stepKinds)[pkgKey(name)]) {
+				r.Bad(rule, name, construct, site, "this loop over sibling plan steps is tabled as order-insensitive for the effects "+strings.Join(normKinds(stepKinds)[pkgKey(name)], ", ")+", but it now also has: "+strings.Join(extraKinds(l.kinds, normKinds(stepKinds)[pkgKey(name)]), ", ")+" — "+arg)
 			} else {
 				r.Bad(rule, name, construct, site, "the order of sibling plan steps follows Go's map iteration in the planner; this loop's effect depends on that order: "+arg)
 			}
@@ -1020,4 +1028,165 @@ func dumpKinds(r *Run) {
 			}
 		}
 	}
+}
+
+// pureFn: a module function without effects that outlive the call: no stores except into
+// memory it allocated, no map updates except on maps it made, no channel operations, no go,
+// and only calls to pure functions.
+var pureMemo = map[*ssa.Function]int{} // 0 unknown, 1 pure, 2 impure, 3 in progress
+
+func (r *Run) pureFn(fn *ssa.Function) bool {
+	switch pureMemo[fn] {
+	case 1:
+		return true
+	case 2, 3:
+		return false
+	}
+	pureMemo[fn] = 3
+	pure := fn.Blocks != nil
+	ownRoot := func(addr ssa.Value) bool {
+		for i := 0; i < 8; i++ {
+			switch x := addr.(type) {
+			case *ssa.FieldAddr:
+				addr = x.X
+			case *ssa.IndexAddr:
+				addr = x.X
+			case *ssa.Alloc:
+				return x.Parent() == fn
+			case *ssa.MakeSlice, *ssa.MakeMap:
+				return true
+			default:
+				return false
+			}
+		}
+		return false
+	}
+	for _, ins := range allInstrs(fn) {
+		if !pure {
+			break
+		}
+		switch x := ins.(type) {
+		case *ssa.Store:
+			if !ownRoot(x.Addr) {
+				pure = false
+			}
+		case *ssa.MapUpdate:
+			if !ownRoot(x.Map) {
+				pure = false
+			}
+		case *ssa.Send, *ssa.Go, *ssa.Defer, *ssa.Select, *ssa.Panic:
+			pure = false
+		case *ssa.Call:
+			if _, isB := x.Call.Value.(*ssa.Builtin); isB {
+				if b := x.Call.Value.(*ssa.Builtin); b.Name() == "delete" || b.Name() == "close" || b.Name() == "panic" {
+					pure = false
+				}
+				continue
+			}
+			if isPureCall(&x.Call) {
+				continue
+			}
+			ok := false
+			for _, e := range r.P.CG.Out[fn] {
+				if e.Site == ssa.CallInstruction(x) && e.Kind == "static" {
+					ok = r.pureFn(e.Callee)
+				}
+			}
+			if !ok {
+				pure = false
+			}
+		}
+	}
+	if pure {
+		pureMemo[fn] = 1
+	} else {
+		pureMemo[fn] = 2
+	}
+	return pure
+}
+
+func (r *Run) pureCallee(c *ssa.Call) bool {
+	n := 0
+	for _, e := range r.P.CG.Out[c.Parent()] {
+		if e.Site != ssa.CallInstruction(c) {
+			continue
+		}
+		if e.Kind != "static" {
+			return false
+		}
+		n++
+		if !r.pureFn(e.Callee) {
+			return false
+		}
+	}
+	return n > 0
+}
+
+// entryLocalCall: a call to a module function all of whose reference-typed arguments are
+// derived from the loop key/value or from a lookup keyed by the loop key: whatever it
+// mutates belongs to this entry.
+func (r *Run) entryLocalCall(c *ssa.Call, l *mapLoop) bool {
+	isModule := false
+	for _, e := range r.P.CG.Out[c.Parent()] {
+		if e.Site == ssa.CallInstruction(c) && e.Kind == "static" {
+			isModule = true
+		}
+	}
+	if !isModule {
+		return false
+	}
+	entryDerived := func(v ssa.Value) bool {
+		if l.key != nil && dependsOnThroughMem(v, l.key) {
+			return true
+		}
+		if l.val != nil && dependsOnThroughMem(v, l.val) {
+			return true
+		}
+		return false
+	}
+	for _, a := range c.Call.Args {
+		switch a.Type().Underlying().(type) {
+		case *types.Pointer, *types.Map, *types.Slice, *types.Interface, *types.Chan, *types.Signature:
+			if _, isConst := a.(*ssa.Const); isConst {
+				continue
+			}
+			if !entryDerived(a) {
+				return false
+			}
+		}
+	}
+	return true
+}
+
+// chunkBody: if mapF only forwards its index to one module function, analyse that function.
+func chunkBody(r *Run, mapF *ssa.Function, idx *ssa.Parameter) (*ssa.Function, *ssa.Parameter) {
+	hasSlice := false
+	for _, ins := range allInstrs(mapF) {
+		if _, ok := ins.(*ssa.Slice); ok {
+			hasSlice = true
+		}
+	}
+	if hasSlice {
+		return nil, nil
+	}
+	for _, ins := range allInstrs(mapF) {
+		c, ok := ins.(*ssa.Call)
+		if !ok {
+			continue
+		}
+		sc := c.Call.StaticCallee()
+		if sc == nil {
+			continue
+		}
+		f := r.P.declared(sc)
+		if !inModule(f) || f.Blocks == nil {
+			continue
+		}
+		for i, a := range c.Call.Args {
+			if unwrap(a) == ssa.Value(idx) && i < len(f.Params) {
+				return f, f.Params[i]
+			}
+		}
+	}
+	return nil, nil
 }
